@@ -353,6 +353,53 @@ class State:
             out = Outcome("raised", None, e)
         self._after_run(pr, out, op["variant"], "async" if op["async"] else "sync", f"run(values, **{{{kwname}}}) variant {op['variant']}", caller=base, caller_snapshot=snap, provided=set(vals))
 
+    def op_after_aborted_limited_run(self, op):
+        """A run with max_concurrency=1 that ends abnormally (a node raises / an interrupt pauses), then - awaited from the SAME task,
+        on a fresh runner - an unlimited run of two nodes of one superstep that need each other (the first waits for an event the
+        second sets).  Whatever budget the first run installed must be gone: the second run completes."""
+        import asyncio
+
+        from hypergraph import AsyncRunner, FunctionNode, Graph, InterruptNode
+
+        how = op["how"]
+
+        def boom(x):
+            raise RuntimeError("boom")
+
+        first_nodes = [FunctionNode(boom, name="boom", output_name="b")] if how == "fail" else [InterruptNode(lambda x: None, name="ask", output_name="b")]
+        g1 = Graph(first_nodes + [FunctionNode(lambda b: b, name="after", output_name="c")])
+
+        async def scenario():
+            try:
+                r1 = await (self.asyn if op["shared"] else AsyncRunner()).run(g1, {"x": 1}, max_concurrency=1, error_handling="raise")
+                st1 = r1.status.value
+            except RuntimeError:
+                st1 = "raised"
+            ev_ = asyncio.Event()
+
+            async def waits(x):
+                await ev_.wait()
+                return ("waited", x)
+
+            async def sets(x):
+                ev_.set()
+                return ("set", x)
+
+            pair = [FunctionNode(waits, name="waits", output_name="w"), FunctionNode(sets, name="sets", output_name="s")]
+            g2 = Graph(pair if op["order"] == 0 else pair[::-1])
+            r2 = await AsyncRunner().run(g2, {"x": 2})
+            return st1, r2.status.value, dict(r2.values)
+
+        tag = f"unlimited run after a max_concurrency=1 run that {'raised' if how == 'fail' else 'paused'} in the same task"
+        try:
+            st1, st2, vals2 = _arun(scenario())
+        except Exception as e:  # noqa: BLE001
+            raise Violation("c18.limiter_leaked", f"[{tag}] the second run did not finish: {type(e).__name__}: {str(e)[:200]}", how=how, deadlock=type(e).__name__ == "Deadlock") from None
+        if st1 != ("raised" if how == "fail" else "paused"):
+            raise Violation("c18.limiter_leaked", f"[{tag}] the first run ended {st1!r}", how=how, deadlock=False)
+        if st2 != "completed" or vals2 != {"w": ("waited", 2), "s": ("set", 2)}:
+            raise Violation("c18.limiter_leaked", f"[{tag}] the second run gave {st2} {vals2}", how=how, deadlock=False)
+
     def op_gather(self, op):
         prs = [self._pick(i) for i in op["ps"]]
         prs = [p for p in prs if p is not None]
@@ -456,6 +503,10 @@ def machine(tier, ev, holder, guarded):
               ks=st.lists(st.sampled_from([None, 1, 2]), min_size=1, max_size=3), sched=st.lists(st.integers(0, 7), max_size=40))
         def gather(self, ps, variants, ks, sched):
             self._do({"op": "gather", "ps": ps, "variants": variants, "ks": ks, "sched": sched})
+
+        @rule(how=st.sampled_from(["fail", "pause"]), shared=st.booleans(), order=st.integers(0, 1))
+        def after_aborted_limited_run(self, how, shared, order):
+            self._do({"op": "after_aborted_limited_run", "how": how, "shared": shared, "order": order})
 
         def teardown(self):
             if self.s.trace and not holder.get("violation"):
